@@ -264,34 +264,22 @@ func compareLetters(a, b string) int {
 
 // compareSuffixArrays compares suffix arrays
 func compareSuffixArrays(a, b []suffix) int {
-	if len(a) == 0 && len(b) == 0 {
-		return 0
-	}
-
-	// Handle cases where one side has no suffixes (release version)
-	// Compare against empty suffix (weight 4)
-	if len(a) == 0 {
-		// Compare release vs first suffix of b
-		return compareSuffixes(suffix{name: "", number: 0}, b[0])
-	}
-	if len(b) == 0 {
-		// Compare first suffix of a vs release
-		return compareSuffixes(a[0], suffix{name: "", number: 0})
-	}
-
-	// Compare suffix by suffix up to the minimum length
-	minLen := min(len(a), len(b))
-
-	for i := 0; i < minLen; i++ {
-		cmp := compareSuffixes(a[i], b[i])
-		if cmp != 0 {
+	// Compare suffix by suffix; a missing suffix compares as "no suffix" (release), so an
+	// additional pre-release suffix makes a version older and a post-release suffix newer
+	for i := 0; i < max(len(a), len(b)); i++ {
+		aSuffix, bSuffix := suffix{name: "", number: 0}, suffix{name: "", number: 0}
+		if i < len(a) {
+			aSuffix = a[i]
+		}
+		if i < len(b) {
+			bSuffix = b[i]
+		}
+		if cmp := compareSuffixes(aSuffix, bSuffix); cmp != 0 {
 			return cmp
 		}
 	}
 
-	// If all compared suffixes are equal, the longer array is "smaller"
-	// This means "alpha_pre" < "alpha" (more suffixes = less stable)
-	return compareInt(len(b), len(a))
+	return 0
 }
 
 // compareSuffixes compares two individual suffixes
